@@ -1,5 +1,269 @@
-import Astria.Mempool.Model
-/- Theorems for area `mempool` (stub). -/
+import Astria.Mempool.TrackOps
+import Astria.Mempool.Afford
+import Astria.Mempool.Fresh
+import Astria.Mempool.Queue
+/-
+  Main theorems of the mempool model: the invariant `Inv` holds after every sequence of
+  operations that respects the mempool's documented preconditions (`Valid`), and what follows
+  from it.
+-/
 namespace Astria.Mempool
+
+/-- The invariant. -/
+structure Inv (s : State) : Prop where
+  shape : Shape s          -- containers ordered by (account, nonce); parked limits; no nonce gap
+  track : Track s [] []    -- tracked set = ids held, each exactly once
+  afford : Afford s        -- ready costs covered by the balances last validated against
+  ledger : Ledger s        -- accepted ids are accounted for
+
+/-- The mempool's documented preconditions.
+    * `insert`: the account nonce shown never decreases ("if the account `current_account_nonce`
+      ever decreases, this is a logic error", transactions_container.rs), and `insert` is not
+      used for an id that is currently tracked — unless the call is rejected anyway (the CheckTx
+      service looks the id up first).
+    * `run_maintenance`: the chain nonce of every processed account is not below the nonce shown
+      before. -/
+def Valid (s : State) : Op → Prop
+  | .insert t cur bal =>
+    s.shown t.acct ≤ cur ∧ (t.id ∉ s.contained ∨ ∃ e, (insertTx s t cur bal).2 = .err e)
+  | .maintain c _ _ _ order => ∀ a ∈ order, s.shown a ≤ c.nonce a
+  | _ => True
+
+inductive ValidSeq : State → List Op → Prop
+  | nil (s : State) : ValidSeq s []
+  | cons {s : State} {op : Op} {ops : List Op} :
+      Valid s op → ValidSeq (step s op).1 ops → ValidSeq s (op :: ops)
+
+theorem inv_init (cfg : Cfg) (hc : 0 < cfg.cacheMax) : Inv (init cfg) := by
+  refine ⟨⟨?_, ?_, ?_, ?_, ?_⟩, ⟨?_, ?_, ?_⟩, ?_, ⟨?_, ?_, ?_⟩⟩
+  all_goals simp [init, Sorted, acctQ, Gap, idc, Afford, costSum, Acc, EvOk, hc]
+
+/-! ### a rejected `insert` changes nothing but the ghost nonce -/
+
+theorem insertTx_err {s : State} {t : Tx} {cur : Nat} {bal : Bal} {e : InsErr}
+    (h : (insertTx s t cur bal).2 = .err e) : (insertTx s t cur bal).1 = noteShown s t.acct cur := by
+  unfold insertTx at h ⊢
+  simp only at h ⊢
+  generalize pendAdd _ _ _ _ = r at h ⊢
+  generalize parkAdd _ _ _ _ = r2 at h ⊢
+  rcases r with e1 | q
+  · cases e1 <;> first
+      | rfl
+      | (rcases r2 with e2 | q2
+         · rfl
+         · simp at h)
+  · simp at h
+
+theorem noteAccepted_acc {s : State} {i id : Nat} (h : Acc s i) (hne : i ≠ id) :
+    Acc (noteAccepted s id) i := by
+  unfold Acc noteAccepted at *
+  rcases h with h | h | h | h | h
+  · exact Or.inl h
+  · exact Or.inr (Or.inl h)
+  · exact Or.inr (Or.inr (Or.inl (by simp [h, hne])))
+  · exact Or.inr (Or.inr (Or.inr (Or.inl h)))
+  · exact Or.inr (Or.inr (Or.inr (Or.inr h)))
+
+/-- `s'` is `s` after the ghost bookkeeping of an accepted id, followed by steps that keep
+    everything accounted for, followed by tracking the id. -/
+theorem ledger_accept {s s1 s2 : State} {id : Nat} (h : Ledger s)
+    (h1 : ∀ i, i ≠ id → Acc s i → Acc s1 i) (ha : s1.accepted = id :: s.accepted)
+    (hcfg : s1.cfg = s.cfg) (hev : EvOk s → EvOk s1) (hdr : s1.dropped = s.dropped)
+    (h2 : AccLe s1 s2) : Ledger (track s2 id) := by
+  have h3 := track_accLe s2 id
+  refine ⟨fun i hi => ?_, h3.2.2.2.1 (h2.2.2.2.1 (hev h.ev)), fun hr => ?_⟩
+  · rw [h3.1, h2.1, ha] at hi
+    by_cases hid : i = id
+    · subst hid; exact track_acc _ _
+    · rcases List.mem_cons.mp hi with hi | hi
+      · exact absurd hi hid
+      · exact h3.2.2.1 i (h2.2.2.1 i (h1 i hid (h.acc i hi)))
+  · rw [h3.2.1, h2.2.1, hcfg] at hr
+    rw [h3.2.2.2.2 (by rw [h2.2.1, hcfg]; exact hr), h2.2.2.2.2 (by rw [hcfg]; exact hr), hdr]
+    exact h.fixed hr
+
+theorem insertTx_ledger (s : State) (t : Tx) (cur : Nat) (bal : Bal) (h : Ledger s) :
+    Ledger (insertTx s t cur bal).1 := by
+  have h0 : Ledger (noteShown s t.acct cur) :=
+    h.of_accLe (AccLe.of_eq rfl rfl rfl rfl rfl rfl rfl rfl)
+  unfold insertTx
+  simp only
+  split
+  · split
+    · rename_i park' _
+      exact ledger_accept (s1 := noteAccepted { noteShown s t.acct cur with park := park' } t.id) h
+        (fun i hne hi => noteAccepted_acc (s := { noteShown s t.acct cur with park := park' }) hi hne)
+        rfl rfl (fun e => e) rfl (AccLe.refl _)
+    · exact h0
+  · split
+    · rename_i park' _
+      exact ledger_accept (s1 := noteAccepted { noteShown s t.acct cur with park := park' } t.id) h
+        (fun i hne hi => noteAccepted_acc (s := { noteShown s t.acct cur with park := park' }) hi hne)
+        rfl rfl (fun e => e) rfl (AccLe.refl _)
+    · exact h0
+  · exact h0
+  · rename_i pend' _
+    exact ledger_accept
+      (s1 := noteBal (noteAccepted { noteShown s t.acct cur with pend := pend' } t.id) t.acct bal) h
+      (fun i hne hi => noteAccepted_acc (s := { noteShown s t.acct cur with pend := pend' }) hi hne)
+      rfl rfl (fun e => e) rfl (promoteReady_accLe _ _ _ _ _ _)
+
+/-! ### the step theorem -/
+
+theorem inv_step {s : State} {op : Op} (h : Inv s) (hv : Valid s op) : Inv (step s op).1 := by
+  cases op with
+  | insert t cur bal =>
+    obtain ⟨hcur, hfresh⟩ := hv
+    show Inv (insertTx s t cur bal).1
+    rcases hfresh with hfresh | ⟨e, he⟩
+    · exact ⟨insertTx_shape s t cur bal h.shape hcur, insertTx_track s t cur bal h.track hfresh,
+        insertTx_afford s t cur bal h.afford, insertTx_ledger s t cur bal h.ledger⟩
+    · rw [insertTx_err he]
+      refine ⟨?_, h.track.of_eq rfl rfl rfl, h.afford.of_eq rfl rfl,
+        h.ledger.of_accLe (AccLe.of_eq rfl rfl rfl rfl rfl rfl rfl rfl)⟩
+      exact ⟨h.shape.pendSorted, h.shape.parkSorted, h.shape.perAcct, h.shape.total,
+        h.shape.gap.mono (fun x => by
+          show s.shown x ≤ if x = t.acct then cur else s.shown x
+          split
+          · rename_i hx; subst hx; exact hcur
+          · exact Nat.le_refl _)⟩
+  | removeInvalid a n id r =>
+    exact ⟨removeInvalid_shape s a n id r h.shape, removeInvalid_track s a n id r h.track,
+      removeInvalid_afford s a n id r h.afford, h.ledger.of_accLe (removeInvalid_accLe s a n id r)⟩
+  | uncache id =>
+    refine ⟨h.shape.of_eq rfl rfl rfl rfl, h.track.of_eq rfl rfl rfl, h.afford.of_eq rfl rfl, ?_⟩
+    refine ⟨fun i hi => ?_, h.ledger.ev, h.ledger.fixed⟩
+    have := h.ledger.acc i hi
+    simp only [step, Acc] at this ⊢
+    rcases this with h1 | h1 | h1 | h1 | h1
+    · exact Or.inl h1
+    · by_cases hid : i = id
+      · subst hid
+        right; right; left
+        have : s.cache.any (fun e => e.1 == i) = true := by
+          obtain ⟨e, he, rfl⟩ := List.mem_map.mp h1
+          exact List.any_eq_true.mpr ⟨e, he, by simp⟩
+        simp [this]
+      · right; left
+        obtain ⟨e, he, rfl⟩ := List.mem_map.mp h1
+        exact List.mem_map.mpr ⟨e, List.mem_filter.mpr ⟨he, by simpa using hid⟩, rfl⟩
+    · right; right; left
+      split
+      · exact List.mem_cons_of_mem _ h1
+      · exact h1
+    · exact Or.inr (Or.inr (Or.inr (Or.inl h1)))
+    · exact Or.inr (Or.inr (Or.inr (Or.inr h1)))
+  | maintain c recost results height order =>
+    exact ⟨maintain_shape s c recost results height order h.shape hv,
+      maintain_track s c recost results height order h.track,
+      maintain_afford s c recost results height order h.shape hv h.afford,
+      h.ledger.of_accLe (maintain_accLe s c recost results height order)⟩
+  | advance dt =>
+    exact ⟨h.shape.of_eq rfl rfl rfl rfl, h.track.of_eq rfl rfl rfl, h.afford.of_eq rfl rfl,
+      h.ledger.of_accLe (AccLe.of_eq rfl rfl rfl rfl rfl rfl rfl rfl)⟩
+
+theorem inv_run {s : State} {ops : List Op} (h : Inv s) (hv : ValidSeq s ops) : Inv (run s ops) := by
+  induction hv with
+  | nil s => exact h
+  | cons hop _ ih => exact ih (inv_step h hop)
+
+/-- The invariant holds in every reachable state. -/
+theorem inv_reachable (cfg : Cfg) (hc : 0 < cfg.cacheMax) (ops : List Op)
+    (hv : ValidSeq (init cfg) ops) : Inv (run (init cfg) ops) :=
+  inv_run (inv_init cfg hc) hv
+
+/-! ### consequences -/
+
+/-- No nonce gap: every nonce between the account nonce last shown and a ready nonce is ready. -/
+theorem ready_no_gap {s : State} (h : Gap s.shown s.pend) :
+    ∀ t ∈ s.pend, ∀ n, s.shown t.acct ≤ n → n ≤ t.nonce →
+      ∃ u ∈ s.pend, u.acct = t.acct ∧ u.nonce = n := by
+  intro t ht n hlo hhi
+  generalize hd : t.nonce - n = d
+  induction d generalizing t with
+  | zero => exact ⟨t, ht, rfl, by omega⟩
+  | succ d ih =>
+    rcases h t ht with hle | ⟨u, hu, hua, hun⟩
+    · omega
+    · obtain ⟨w, hw, hwa, hwn⟩ := ih u hu (by rw [hua]; exact hlo) (by omega) (by omega)
+      exact ⟨w, hw, hwa.trans hua, hwn⟩
+
+/-- The tracked set and the two containers: counts. -/
+theorem tracked_counts {s : State} (h : Track s [] []) (i : Nat) :
+    s.contained.count i = idc s.pend i + idc s.park i ∧ idc s.pend i + idc s.park i ≤ 1 := by
+  have h1 := h.bal i
+  have h2 := h.uniq i
+  simp only [List.count_nil] at h1 h2
+  omega
+
+theorem len_eq {s : State} (h : Track s [] []) : len s = s.pend.length + s.park.length := by
+  have hperm : s.contained.Perm ((s.pend ++ s.park).map (·.id)) := by
+    rw [List.perm_iff_count]
+    intro i
+    rw [count_map_id]
+    have := (tracked_counts h i).1
+    unfold idc at *
+    rw [List.countP_append]
+    exact this
+  have := hperm.length_eq
+  simpa [len] using this
+
+theorem status_pending_iff {s : State} (h : Track s [] []) (i : Nat) :
+    status s i = some .pending ↔ ∃ t ∈ s.pend, t.id = i := by
+  have hc := tracked_counts h i
+  unfold status
+  constructor
+  · intro hs
+    split at hs
+    · split at hs
+      · rename_i _ hany
+        obtain ⟨t, ht, hid⟩ := List.any_eq_true.mp hany
+        exact ⟨t, ht, by simpa using hid⟩
+      · cases hs
+    · split at hs
+      · cases hs
+      · cases hq : s.cache.lookup i <;> simp [hq] at hs
+  · rintro ⟨t, ht, hid⟩
+    have hp : 0 < idc s.pend i := idc_pos_iff.mpr ⟨t, ht, hid⟩
+    have hmem : i ∈ s.contained := List.count_pos_iff.mp (by omega)
+    have : s.contained.contains i = true := by simpa using hmem
+    have hany : s.pend.any (fun t => t.id == i) = true :=
+      List.any_eq_true.mpr ⟨t, ht, by simpa using hid⟩
+    simp [hany, hmem]
+
+theorem status_parked_iff {s : State} (h : Track s [] []) (i : Nat) :
+    status s i = some .parked ↔ ∃ t ∈ s.park, t.id = i := by
+  have hc := tracked_counts h i
+  unfold status
+  constructor
+  · intro hs
+    split at hs
+    · rename_i hcont
+      split at hs
+      · cases hs
+      · rename_i hany
+        have hmem : i ∈ s.contained := by simpa using hcont
+        have hpos : 0 < s.contained.count i := List.count_pos_iff.mpr hmem
+        have hp0 : idc s.pend i = 0 := by
+          unfold idc
+          rw [List.countP_eq_zero]
+          intro t ht hid
+          exact hany (List.any_eq_true.mpr ⟨t, ht, hid⟩)
+        exact idc_pos_iff.mp (by omega)
+    · split at hs
+      · cases hs
+      · cases hq : s.cache.lookup i <;> simp [hq] at hs
+  · rintro ⟨t, ht, hid⟩
+    have hk : 0 < idc s.park i := idc_pos_iff.mpr ⟨t, ht, hid⟩
+    have hmem : i ∈ s.contained := List.count_pos_iff.mp (by omega)
+    have : s.contained.contains i = true := by simpa using hmem
+    have hp0 : idc s.pend i = 0 := by omega
+    have hany : s.pend.any (fun t => t.id == i) = false := by
+      rw [Bool.eq_false_iff]
+      intro hany
+      obtain ⟨u, hu, hid'⟩ := List.any_eq_true.mp hany
+      have : 0 < idc s.pend i := idc_pos_iff.mpr ⟨u, hu, by simpa using hid'⟩
+      omega
+    simp [hany, hmem]
 
 end Astria.Mempool
